@@ -10,8 +10,9 @@ Open Scope Z_scope.
    after EVERY operation TotalRead equals the number of bytes obtained from the underlying reader minus the bytes
    still buffered, i.e. exactly the number of bytes consumed so far.  (Each observation is
    [[results] TotalRead pulled Buffered].) *)
-Theorem C22_totalread_exact : forall size src ops obs,
-  reader_run ops (new_reader size src) = Some obs ->
+Theorem C22_totalread_exact : forall wt size src ops obs,
+  forallb rune_free ops = true ->
+  reader_run wt ops (new_reader size src, -1) = Some obs ->
   Forall (fun o => exists ret t p b, o = VL [VL ret; VZ t; VZ p; VZ b] /\ t = p - b /\ 0 <= b) obs.
 Proof. exact totalread_exact. Qed.
 Print Assumptions C22_totalread_exact.
@@ -19,8 +20,8 @@ Print Assumptions C22_totalread_exact.
 (* Counter exactness of the Writer.  For every buffer size, every scripted sink (short writes, errors) and every
    history of Write / WriteByte / WriteString / Flush / ReadFrom operations, after EVERY operation TotalWrite equals
    the bytes handed to the underlying writer plus the bytes still buffered, i.e. exactly the bytes accepted so far. *)
-Theorem C22_totalwrite_exact : forall size sink ops obs,
-  writer_run ops (new_writer size sink) = Some obs ->
+Theorem C22_totalwrite_exact : forall rf size sink ops obs,
+  writer_run rf ops (new_writer size sink) = Some obs ->
   Forall (fun o => (exists ret t k b, o = VL [VL ret; VZ t; VZ k; VZ b] /\ t = k + b) \/ exists out, o = VB out) obs.
 Proof. exact totalwrite_exact. Qed.
 Print Assumptions C22_totalwrite_exact.
@@ -40,7 +41,8 @@ Print Assumptions C22_totalwrite_exact.
    the read index are the bytes consumed last. *)
 Theorem C22_reader_stream : forall size src ops obs,
   Forall (fun b => 0 <= b) (script_stream src) ->
-  reader_run ops (new_reader size src) = Some obs ->
+  forallb rune_free ops = true ->
+  reader_run false ops (new_reader size src, -1) = Some obs ->
   trace_ok (script_stream src) 0 ops obs.
 Proof. exact reader_stream. Qed.
 Print Assumptions C22_reader_stream.
@@ -51,7 +53,7 @@ Example C22_reader_stream_example :
   let src := [([97;98;99;10], 0); ([100;13], 0); ([10;101], 1)] in
   let ops := [VL [VZ 2]; VL [VZ 4; VZ 10]; VL [VZ 3]; VL [VZ 2]; VL [VZ 6; VZ 3]; VL [VZ 5]; VL [VZ 1; VZ 40]; VL [VZ 3]; VL [VZ 8; VZ 10]; VL [VZ 9]] in
   Forall (fun b => 0 <= b) (script_stream src) /\
-  exists obs, reader_run ops (new_reader 16 src) = Some obs.
+  forallb rune_free ops = true /\ exists obs, reader_run false ops (new_reader 16 src, -1) = Some obs.
 Proof. exact reader_stream_example. Qed.
 
 (* Stream preservation of the Writer.  For every buffer size, every sink script (short writes, errors) and every
@@ -62,14 +64,14 @@ Proof. exact reader_stream_example. Qed.
    nothing buffered, and at the end the underlying writer has received exactly a prefix of A - the rest of A is
    what is still buffered.  Nothing is lost, duplicated or reordered on the way to the sink. *)
 Theorem C22_writer_stream : forall size sink ops obs,
-  writer_run ops (new_writer size sink) = Some obs ->
+  writer_run false ops (new_writer size sink) = Some obs ->
   wtrace_ok [] ops obs.
 Proof. exact writer_stream. Qed.
 Print Assumptions C22_writer_stream.
 
 (* Non-vacuity: a history over a sink with a short write and an error. *)
 Example C22_writer_stream_example :
-  exists obs, writer_run [VL [VZ 1; VB [1;2;3;4;5;6;7]]; VL [VZ 2; VZ 8]; VL [VZ 6; VL [VL [VB [9;10;11]; VZ 1]]]; VL [VZ 3; VB [12;13]]; VL [VZ 4]]
+  exists obs, writer_run false [VL [VZ 1; VB [1;2;3;4;5;6;7]]; VL [VZ 2; VZ 8]; VL [VZ 6; VL [VL [VB [9;10;11]; VZ 1]]]; VL [VZ 3; VB [12;13]]; VL [VZ 4]]
                          (new_writer 4 [(2, 0); (5000, 0); (1, 8)]) = Some obs.
 Proof. exact writer_stream_example. Qed.
 
